@@ -93,6 +93,25 @@ class Tracer:
         return self.writes, self.allocs
 
 
+def fd_reachable(o, depth=0):
+    """is the finite-difference gradient option switched on for `o` or any density it evaluates through?"""
+    if depth > 3:
+        return False
+    try:
+        if o.FD_enabled:
+            return True
+    except Exception:  # noqa
+        pass
+    for attr in ("distribution", "likelihood", "prior", "_gaussian"):
+        sub = getattr(o, attr, None) if attr in getattr(o, "__dict__", {}) else None
+        if sub is not None and fd_reachable(sub, depth + 1):
+            return True
+    for sub in getattr(o, "__dict__", {}).get("_densities", []) or []:
+        if fd_reachable(sub, depth + 1):
+            return True
+    return False
+
+
 def letter(cuqi, o):
     from cuqi.distribution import JointDistribution, Posterior, Distribution, Lognormal, MultipleLikelihoodPosterior
     from cuqi.implicitprior import RegularizedGaussian
@@ -916,6 +935,8 @@ class Program:
             else:
                 esc_nb.append(item)
         rec = {"alloc": al, "esc": sorted(set(esc_nb)), "benign": sorted(set(esc_b))}
+        if kind == "grad":
+            rec["fd_active"] = fd_reachable(op[2])
         if isinstance(res, Exception):
             rec["kind"] = "e"; rec["exc"] = type(res).__name__ + ": " + str(res)[:100]
         elif kind == "gibbs":
@@ -1469,8 +1490,10 @@ def compare(m, i, opkind):
     if "esc" in m:
         m["esc"] = [e for e in m["esc"] if not e.endswith("_constant[...]")]   # in-place ndarray writes: judged by the oracle
     if opkind in ("grad", "sample", "sample1", "samplerng", "pdf", "cdf"):
-        # only allocation / write behaviour is compared (families refuse gradients / sampling for their own reasons)
-        if i["kind"] != "e" and m["alloc"] != i["alloc"]:
+        # only allocation / write behaviour is compared (families refuse gradients / sampling for their own reasons);
+        # with the finite-difference option switched on (a configuration step) a gradient is dim+1 evaluations of logd,
+        # each allocating what a `logd` op allocates: not expanded in the model, allocations not compared then
+        if i["kind"] != "e" and not i.get("fd_active") and m["alloc"] != i["alloc"]:
             diffs.append(f"allocations {m['alloc']} vs {i['alloc']}")
         if sorted(m["esc"]) != [] or i["esc"] != []:
             if [e.split(".", 1)[1] for e in m["esc"]] != [e.split(".", 1)[1] for e in i["esc"]]:
@@ -1672,9 +1695,9 @@ def sampler_scenarios(ctx, cuqi, tracer, thorough):
     def probes():
         return [{"d": np.array([1.0 + k]), "l": np.array([2.0 - k]), "x": probes_x[k], "y": yobs + k, "__modelinput__": probes_x[k]} for k in range(2)]
 
-    def guarded(label, key, originals, action, desc):
+    def guarded(label, key, originals, action, desc, pr=None):
         """run `action` with tracing; originals must be unaltered; escaping writes on originals must be benign"""
-        pr = probes()
+        pr = pr or probes()
         s0 = {lab: snapshot(o) for lab, o in originals}
         b0 = {lab: behaviour(cuqi, o, pr) for lab, o in originals}
         known = set()
@@ -1713,7 +1736,7 @@ def sampler_scenarios(ctx, cuqi, tracer, thorough):
             ctx.note(f"{label}: idempotent write(s) to pre-existing objects {esc} (value unchanged)")
         return err
 
-    Ns = 700 if not thorough else 3000
+    Ns = 700 if not thorough else 2000
     # ---- legacy Gibbs and HybridGibbs: thousands of re-conditionings of one joint
     with quiet():
         A, d, l, x, y = build()
@@ -1784,6 +1807,168 @@ def sampler_scenarios(ctx, cuqi, tracer, thorough):
             {"sampler": "cuqi.sampler.RegularizedLinearRTO"})
     guarded("experimental-RegularizedLinearRTO", "sampler:experimental-RegularizedLinearRTO", origs,
             lambda: XS.RegularizedLinearRTO(pr_, maxit=5).sample(8), {"sampler": "cuqi.experimental.mcmc.RegularizedLinearRTO"})
+    conjugate_pairs(ctx, cuqi, tracer, lambda pr: (lambda *a: guarded(*a, pr=pr)))
+
+
+def conjugate_pairs(ctx, cuqi, tracer, guarded_factory):
+    """every conjugate pair of the conjugate samplers (plain / regularised Gaussian and GMRF, parameterised by precision
+    or covariance; LMRF for the approximate sampler), run directly on the hyper-parameter conditional and inside
+    HybridGibbs: the ORIGINAL hyper-prior (its shape / rate arrays are shared with every conditioned copy) and every
+    other original must be unaltered"""
+    import cuqi.sampler as LS
+    import cuqi.experimental.mcmc as XS
+    from cuqi.distribution import Gaussian, Gamma, GMRF, LMRF, JointDistribution
+    from cuqi.implicitprior import RegularizedGaussian, RegularizedGMRF
+    rs = np.random.RandomState(ctx.seed + 23)
+    n = 6
+    xcur = np.abs(rs.randint(-2, 4, size=n)).astype(float)
+    xcur[0] = 0.0
+
+    def worlds():
+        yield "Gaussian-prec", lambda: Gaussian(np.zeros(n), prec=lambda d: d, name="x"), XS.Conjugate, LS.Conjugate
+        yield "Gaussian-cov", lambda: Gaussian(np.zeros(n), cov=lambda d: 1.0 / d, name="x"), XS.Conjugate, LS.Conjugate
+        yield "GMRF", lambda: GMRF(np.zeros(n), lambda d: d, name="x"), XS.Conjugate, LS.Conjugate
+        yield "RegularizedGaussian-prec", lambda: RegularizedGaussian(np.zeros(n), prec=lambda d: d, constraint="nonnegativity", name="x"), XS.Conjugate, None
+        yield "RegularizedGaussian-cov", lambda: RegularizedGaussian(np.zeros(n), cov=lambda d: 1.0 / d, constraint="nonnegativity", name="x"), XS.Conjugate, None
+        yield "RegularizedGMRF", lambda: RegularizedGMRF(np.zeros(n), prec=lambda d: d, constraint="nonnegativity", name="x"), XS.Conjugate, None
+        yield "LMRF", lambda: LMRF(0, lambda d: 1.0 / d, geometry=n, name="x"), XS.ConjugateApprox, LS.ConjugateApprox
+    for lab, mk, XC, LC in worlds():
+        for rate in (1e-4, 0.5):
+            try:
+                with quiet():
+                    d = Gamma(1.0, rate, name="d")
+                    x = mk()
+                    joint = JointDistribution(d, x)
+                    pd = joint(x=xcur)
+            except Exception as e:  # noqa
+                ctx.note(f"conjugate pair {lab}: world refused: {type(e).__name__}: {str(e)[:80]}")
+                continue
+            origs = [("joint", joint), ("conditional_d", pd), ("d", d), ("x", x)]
+            desc = {"pair": lab, "rate": rate, "target": "joint(d, x)(x=x_current)"}
+            pr = [{"d": np.array([1.0 + k]), "x": xcur + k} for k in range(2)]
+
+            def direct():
+                smp = XC(pd)
+                smp.warmup(2); smp.sample(6)
+            guarded_factory(pr)(f"experimental-{XC.__name__}:{lab}", f"sampler:experimental-{XC.__name__}:{lab}", origs, direct,
+                                {**desc, "sampler": "cuqi.experimental.mcmc." + XC.__name__})
+            if LC is not None:
+                guarded_factory(pr)(f"legacy-{LC.__name__}:{lab}", f"sampler:legacy-{LC.__name__}:{lab}", origs,
+                                    lambda: [LC(pd).step() for _ in range(6)], {**desc, "sampler": "cuqi.sampler." + LC.__name__})
+        # the same pair inside HybridGibbs with a data model on top
+        try:
+            with quiet():
+                from cuqi.model import LinearModel
+                Amat = rs.randint(-2, 3, size=(n + 1, n)).astype(float)
+                d = Gamma(1.0, 1e-2, name="d")
+                x = mk()
+                y = Gaussian(LinearModel(Amat), 0.5, name="y")
+                joint = JointDistribution(d, x, y)
+                post = joint(y=Amat @ np.abs(xcur) + 0.1)
+        except Exception as e:  # noqa
+            ctx.note(f"conjugate pair {lab} (Gibbs): world refused: {type(e).__name__}: {str(e)[:80]}")
+            continue
+        origs = [("joint", joint), ("posterior", post), ("d", d), ("x", x), ("y", y)]
+        pr = [{"d": np.array([1.0 + k]), "x": xcur + k, "y": Amat @ xcur + k} for k in range(2)]
+        xs = XS.RegularizedLinearRTO(maxit=4) if lab.startswith("Regularized") else (XS.LinearRTO(maxit=4) if lab != "LMRF" else XS.UGLA())
+
+        def gibbs():
+            g = XS.HybridGibbs(post, {"x": xs, "d": XC()})
+            g.warmup(3); g.sample(8); g.warmup(2); g.sample(1)          # repeated phases, a phase of length exactly 1
+        guarded_factory(pr)(f"HybridGibbs:{lab}", f"sampler:HybridGibbs:{lab}", origs, gibbs, {"pair": lab, "sampler": "HybridGibbs(" + XC.__name__ + ")"})
+
+
+def scope_scenarios(ctx, cuqi):
+    """objects going out of scope: the usual helper pattern `def make(...): y = Gaussian(A, 0.1); return y(y=data)`.
+    Everything derived from an original must behave the same whether or not the caller still holds the original —
+    with explicit names and with names inferred from the Python variable (looked up before or only after the copy)."""
+    import gc
+    from cuqi.distribution import Gaussian, Gamma, JointDistribution, Lognormal
+    from cuqi.implicitprior import RegularizedGaussian
+    from cuqi.model import LinearModel
+    Amat = np.array([[1.0, 2.0, 0.5], [0.0, 1.0, 3.0], [2.0, 0.0, 1.0]])
+    data = np.array([0.1, 0.2, -0.4])
+    x0 = np.array([0.5, -1.0, 2.0])
+
+    def facts(o):
+        out = {"type": type(o).__name__, "name": _canon_name(_try(lambda: o.name)),
+               "params": _canon_name(_try(lambda: list(o.get_parameter_names())))}
+        dist = getattr(o, "distribution", None)
+        if dist is not None:
+            out["distribution.name"] = _canon_name(_try(lambda: dist.name))
+        if hasattr(o, "_get_fixed_variables"):
+            out["fixed"] = _canon_name(_try(lambda: sorted(map(str, o._get_fixed_variables()))))
+        names = _try(lambda: list(o.get_parameter_names()))
+        if not isinstance(names, Exception) and names and all(isinstance(k, str) for k in names):
+            vals = {"x": x0, "y": data, "s": np.array([2.0]), "z": np.array([1.0, 1.0, 1.0])}
+            if all(k in vals for k in names):
+                out["logd"] = _canon(_try(lambda: o.logd(**{k: vals[k] for k in names})))
+        return out
+
+    def b_cond_data(named, lookup_first):
+        A = LinearModel(Amat)
+        y = Gaussian(A, 0.1, name="y") if named else Gaussian(A, 0.1)
+        if lookup_first:
+            y.name
+        L = y(y=data)
+        return {"y": y}, {"L": L, "copy_of_copy": L.distribution(x=x0), "E": L.distribution(x=x0, y=data), "L_cond": L(x=x0)}
+
+    def b_cond_hyper(named, lookup_first):
+        y = Gaussian(np.zeros(3), lambda s: s, name="y") if named else Gaussian(np.zeros(3), lambda s: s)
+        if lookup_first:
+            y.name
+        ys = y(s=2.0)
+        return {"y": y}, {"ys": ys, "ys_copy": ys(), "E": ys(y=data), "L": y.to_likelihood(data), "Ls": y.to_likelihood(data)(s=2.0)}
+
+    def b_joint(named, lookup_first):
+        A = LinearModel(Amat)
+        x = Gaussian(np.zeros(3), 1.0, name="x") if named else Gaussian(np.zeros(3), 1.0)
+        y = Gaussian(A, 0.1, name="y") if named else Gaussian(A, 0.1)
+        if lookup_first:
+            x.name, y.name
+        J = JointDistribution(x, y)
+        return {"x": x, "y": y, "J": J}, {"posterior": J(y=data), "lik": J(x=x0), "again": J()(y=data)}
+
+    def b_helper_objects(named, lookup_first):
+        y = Lognormal(lambda z: z, 1.0 * np.eye(3), name="y") if named else Lognormal(lambda z: z, 1.0 * np.eye(3))
+        x = RegularizedGaussian(np.zeros(3), lambda s: s, constraint="nonnegativity", name="x") if named else \
+            RegularizedGaussian(np.zeros(3), lambda s: s, constraint="nonnegativity")
+        if lookup_first:
+            x.name, y.name
+        return {"x": x, "y": y}, {"yz": y(z=np.ones(3)), "Ly": y(y=np.abs(data) + 1), "xs": x(s=2.0), "Lx": x(x=np.abs(data))}
+
+    for bname, builder in (("cond-data", b_cond_data), ("cond-hyper", b_cond_hyper), ("joint", b_joint), ("helpers", b_helper_objects)):
+        for named in (True, False):
+            for lookup_first in (False, True):
+                desc = {"builder": bname, "explicit_names": named, "name_looked_up_before_copy": lookup_first}
+                ctx.case("scope:" + bname, desc)
+                res = {}
+                for keep in (True, False):
+                    try:
+                        with quiet():
+                            origs, derived = builder(named, lookup_first)
+                    except Exception as e:  # noqa
+                        res[keep] = {"<builder>": "exc:" + type(e).__name__ + ":" + str(e)[:60]}
+                        continue
+                    if not keep:
+                        origs = None
+                        del origs
+                        gc.collect()
+                    with quiet():
+                        res[keep] = {k: facts(o) for k, o in derived.items()}
+                    derived = None
+                    gc.collect()
+                if res[True] != res[False]:
+                    diff = {k: (res[True].get(k), res[False].get(k)) for k in set(res[True]) | set(res[False]) if res[True].get(k) != res[False].get(k)}
+                    key = f"scope:{bname}:{'named' if named else 'inferred-name'}"
+                    ctx.disagree(key, desc, "model: names are read through `_original_density` (copy_keeps_name), independent of who else references the original",
+                                 diff, "derived objects behave differently once the caller drops the original")
+                    ctx.fail(key, desc, "derived objects report the same names / parameter names / logd whether or not the caller still holds the original",
+                             diff, "a conditioned copy / likelihood / evaluated density depends on the caller keeping its original alive")
+
+
+def _canon_name(x):
+    return "exc:" + type(x).__name__ if isinstance(x, Exception) else x
 
 
 def deep_chains(ctx, cuqi):
@@ -1859,10 +2044,13 @@ def run(ctx):
     tracer = Tracer(cuqi)
     tracer.install()
     try:
-        n = 120 if not thorough else 120 * ctx.scale
+        n = 55 if not thorough else 40 * ctx.scale
         sc = 1 if not thorough else ctx.scale
-        run_programs(ctx, cuqi, tracer, n, thorough, n_step=30 * sc, n_rejoin=20 * sc, n_dense=20 * sc, n_inter=20 * sc)
+        q = not thorough
+        run_programs(ctx, cuqi, tracer, n, thorough, n_step=(18 if q else 13 * sc), n_rejoin=(12 if q else 9 * sc),
+                     n_dense=(12 if q else 9 * sc), n_inter=(12 if q else 9 * sc))
         sampler_scenarios(ctx, cuqi, tracer, thorough)
         deep_chains(ctx, cuqi)
+        scope_scenarios(ctx, cuqi)
     finally:
         tracer.uninstall()
